@@ -30,7 +30,8 @@ def gen_sjson():
     from sugar.core.meta import Attr, Meta
     from sugar.core.seq import BioSeq, BioBasket
     need(isinstance(S.SUGAR, tuple) and all(isinstance(c, type) for c in S.SUGAR), 'sjson.SUGAR is not a tuple of classes')
-    names = [c.__name__ for c in S.SUGAR]
+    # SUGAR is only ever the second argument of isinstance(): its order cannot matter, so it is emitted sorted
+    names = sorted(c.__name__ for c in S.SUGAR)
     for c in S.SUGAR:
         need(getattr(S, c.__name__, None) is c, 'class %s is not reachable through globals() of sjson' % c.__name__)
     need(isinstance(S.COMMENT, str), 'COMMENT is not a str')
